@@ -15,7 +15,8 @@ Reading of the statement that the theorems formalise
     with hooks still to run (`¬ pending s p`).
 -/
 import Uniflow.Generated.Locks
-import Uniflow.Proofs.Process
+import Uniflow.Proofs.ProcessJoin
+import Uniflow.Proofs.ProcessLog
 
 namespace Uniflow.Process
 
@@ -169,8 +170,8 @@ theorem C04.first_error_kept_nonvacuous :
 /-- **Reverse order (partial).** The activation created by the flip holds exactly the hooks
 registered before termination, in reverse registration order, and `contStep` always runs the
 head of that list – so the thread that performed the flip runs them in reverse order.
-Missing for the full statement: that the log, across all threads, shows the early hooks of a
-process in this order (needs uniqueness of the activation holding them; see `reverse_order_full`). -/
+The full statement – the order in the log across all threads – is `C04.reverse_order` /
+`C04.reverse_order_log` below (with `C04.early_frame_unique`). -/
 theorem C04.reverse_order_partial (s : State) (t p e : Nat) :
     (s.procs p).terminated = false →
     ((exitFlip s t p e).threads t).stack.head? =
@@ -178,7 +179,7 @@ theorem C04.reverse_order_partial (s : State) (t p e : Nat) :
   intro h
   simp [exitFlip, h, pushFrame]
 
-/-- Full statement, NOT proved: in every reachable state, for two registrations `k₁ < k₂` made
+/-- Full statement (proved below as `C04.reverse_order`): in every reachable state, for two registrations `k₁ < k₂` made
 on the same process before its termination, `k₁` logged implies `k₂` logged (one log entry per
 step, so `k₂` ran strictly earlier). -/
 def C04.reverse_order_full : Prop :=
@@ -187,7 +188,7 @@ def C04.reverse_order_full : Prop :=
     k₁ < k₂ → k₂ < s.nextTok → s.owner k₁ = s.owner k₂ → s.late k₁ = false → s.late k₂ = false →
       0 < runCount s k₁ → 0 < runCount s k₂
 
-/-- Full statement, NOT proved: whenever the wait counter of `p` is 0 (the only situation in
+/-- Full statement (proved below as `C04.join_after_children`): whenever the wait counter of `p` is 0 (the only situation in
 which `joinReturn` is enabled) and no thread is between the two halves of `p.Fork()`, every child
 of `p` is terminated and all its hooks registered before its termination have run; and
 `wait.Done` never panics. -/
@@ -208,6 +209,166 @@ theorem C04.join_after_children_partial (s : State) (t p : Nat) :
   split
   · simp [contStep, hpc, hw]
   · rfl
+
+/-! ### full statements (follow-up): order across threads, wait counter, Join -/
+
+/-- all invariants hold in every reachable state -/
+theorem reach_inv (nt : Nat) (sched : List (Nat × Action)) :
+    let s := run (init nt) sched
+    Good s ∧ Ord s ∧ JC s ∧ JW s := by
+  have g := good_run (good_init nt) sched
+  have o := ord_run (good_init nt) (ord_init nt) sched
+  have j := j_run (good_init nt) (ord_init nt) (jc_init nt) (jw_init nt) sched
+  exact ⟨g, o, j.1, j.2⟩
+
+/-- **Reverse order, across all threads.** In every reachable state, for two registrations
+`k₁ < k₂` (registration order = token order) made on the same process before its termination:
+if `k₁` has run then `k₂` has run. A step logs at most one hook, so `k₂` ran strictly before `k₁`:
+hooks registered before the flip run in reverse registration order in the log, whichever threads
+execute `Exit` concurrently. -/
+theorem C04.reverse_order : C04.reverse_order_full := by
+  intro nt sched k₁ k₂ s h12 h2 hown hl1 hl2 hc
+  exact (reach_inv nt sched).2.1.logOrd k₁ k₂ h12 h2 hown hl1 hl2 hc
+
+/-- **Only one activation holds the early hooks of a process.** In every reachable state, two
+frames (on any threads) that each still hold a hook registered on the same process before its
+termination are the same frame of the same thread – only the `Exit` whose locked section
+performed the flip received the hook list. -/
+theorem C04.early_frame_unique (nt : Nat) (sched : List (Nat × Action)) (t t' : Nat) (f f' : Frame) (x x' : Hook) :
+    let s := run (init nt) sched
+    t < s.nt → t' < s.nt → f ∈ (s.threads t).stack → f' ∈ (s.threads t').stack →
+    x ∈ f.rem → x' ∈ f'.rem → s.late x.tok = false → s.late x'.tok = false → f.proc = f'.proc →
+      t = t' ∧ f = f' := by
+  intro s ht ht' hf hf' hx hx' hl hl' hp
+  obtain ⟨g, o, _, _⟩ := reach_inv nt sched
+  have ho := ((g.frameOK t f ht hf).2 x hx).2.2.1
+  have ho' := ((g.frameOK t' f' ht' hf').2 x' hx').2.2.1
+  rcases Nat.lt_trichotomy x.tok x'.tok with h | h | h
+  · obtain ⟨y, hy, hyk⟩ := o.remClosed t' f' x' x.tok ht' hf' hx' hl' h hl (by rw [ho, hp])
+    exact g.frame_tok_unique ht ht' hf hf' hx hy hyk
+  · exact g.frame_tok_unique ht ht' hf hf' hx hx' h.symm
+  · obtain ⟨y, hy, hyk⟩ := o.remClosed t f x x'.tok ht hf hx hl h hl' (by rw [ho', hp])
+    have := g.frame_tok_unique ht' ht hf' hf hx' hy hyk
+    exact ⟨this.1.symm, this.2.symm⟩
+
+/-- **A second (concurrent or later) `Exit` gets the empty list.** In every reachable state,
+`Exit` on an already terminated process pushes an activation with no hooks at all. -/
+theorem C04.second_exit_gets_empty (nt : Nat) (sched : List (Nat × Action)) (t p e : Nat) :
+    let s := run (init nt) sched
+    p < s.np → (s.procs p).terminated = true →
+      ((exitFlip s t p e).threads t).stack.head? = some { proc := p, rem := [], err := e } ∧
+      (exitFlip s t p e).procs = s.procs := by
+  intro s hp ht
+  have g := (reach_inv nt sched).1
+  have hh : (s.procs p).hooks = [] := g.hooksRun p hp ht
+  simp [exitFlip, ht, hh, pushFrame]
+
+/-- **Wait-counter accounting.** In every reachable state the counter of `p` equals the number of
+threads between `p.wait.Add(1)` and the registration of the new child, plus the number of children
+of `p` whose `wait.Done` hook has not run. -/
+theorem C04.wait_counter_accounting (nt : Nat) (sched : List (Nat × Action)) (p : Nat) :
+    let s := run (init nt) sched
+    p < s.np → (s.procs p).waitCnt = pendForks s p + unrunKids s p :=
+  fun hp => (reach_inv nt sched).2.2.1.acc p hp
+
+/-- **`wait.Done` never panics**: the counter never goes negative, under any schedule. -/
+theorem C04.wait_done_never_panics (nt : Nat) (sched : List (Nat × Action)) :
+    (run (init nt) sched).wgPanic = false :=
+  (reach_inv nt sched).2.2.1.noPanic
+
+theorem join_of_inv {s : State} (g : Good s) (o : Ord s) (j : JC s) {p c : Nat} (hp : p < s.np)
+    (hw : (s.procs p).waitCnt = 0) (hc : c < s.np) (hpar : (s.procs c).parent = some p) :
+    (s.procs c).terminated = true ∧
+      ∀ k, k < s.nextTok → s.owner k = c → s.late k = false → runCount s k = 1 := by
+  have hacc := j.acc p hp
+  have hge := sumTo_ge (f := fun c => unrun s p c) hc
+  have hun : unrun s p c = 0 := by simp only [unrunKids] at hacc; omega
+  have hsome : (s.procs c).parent.isSome = true := by rw [hpar]; rfl
+  have hlogged : 0 < cntL (s.procs c).wtok s.log := by
+    simp only [unrun, hpar, true_and] at hun
+    by_cases e : cntL (s.procs c).wtok s.log = 0
+    · simp [e] at hun
+    · omega
+  have hwt := j.wtokOK c hc hsome
+  refine ⟨?_, ?_⟩
+  · obtain ⟨e, he, hek⟩ := cntL_pos hlogged
+    have := g.logOK e he
+    rw [hek, hwt.2.1] at this
+    rw [this.2.2.2]; exact this.2.1
+  · intro k hk ho hl
+    have hmin := j.wmin c k hc hsome hk ho
+    have hle := (exactly_once_of_good g k hk).1
+    have hpos : 0 < cntL k s.log := by
+      by_cases e : (s.procs c).wtok = k
+      · rw [← e]; exact hlogged
+      · exact o.logOrd (s.procs c).wtok k (by omega) hk (by rw [hwt.2.1, ho]) hwt.2.2 hl hlogged
+    simp only [runCount] at *; omega
+
+/-- **Join waits, `wait.Done` never panics.** In every reachable state: the `WaitGroup` counter
+never went negative, and whenever the counter of `p` is 0 – the only situation in which the
+`joinReturn` step is enabled – every child of `p` is terminated and every hook registered on it
+before its termination has run exactly once. (Children whose `Fork` is between its two halves
+keep the counter positive, see `wait_counter_accounting`.) -/
+theorem C04.join_after_children : C04.join_after_children_full := by
+  intro nt sched p c s
+  obtain ⟨g, o, j, _⟩ := reach_inv nt sched
+  exact ⟨j.noPanic, fun hp hw hc hpar => join_of_inv g o j hp hw hc hpar⟩
+
+/-- The same, phrased on the step: if a thread inside `Join(p)` returns by its next step, then at
+that moment every process forked from `p` so far – in particular every child forked before the
+`Join` began – is terminated and all its hooks registered before termination have run. No
+hypothesis on the usage of `Join` is needed in the model, whose `WaitGroup` is a plain counter;
+the documented-usage hypothesis concerns the real `sync.WaitGroup`'s misuse panics only. -/
+theorem C04.join_return_after_children (nt : Nat) (sched : List (Nat × Action)) (t p c : Nat) :
+    let s := run (init nt) sched
+    t < s.nt → p < s.np → (s.threads t).pc = .joining p → ((step s t .cont).threads t).pc = .idle →
+    c < s.np → (s.procs c).parent = some p →
+      (s.procs c).terminated = true ∧
+        ∀ k, k < s.nextTok → s.owner k = c → s.late k = false → runCount s k = 1 := by
+  intro s ht hp hpc hret hc hpar
+  obtain ⟨g, o, j, _⟩ := reach_inv nt sched
+  have hw : (s.procs p).waitCnt = 0 := by
+    by_cases e : (s.procs p).waitCnt = 0
+    · exact e
+    · have := C04.join_after_children_partial s t p hpc e
+      rw [this, hpc] at hret; cases hret
+  exact join_of_inv g o j hp hw hc hpar
+
+/-- Non-vacuity of the Join theorems: after `demoSched` the root's counter is 0 with one child. -/
+theorem C04.join_after_children_nonvacuous :
+    let s := run (init 1) demoSched
+    (s.procs 0).waitCnt = 0 ∧ (s.procs 1).parent = some 0 ∧ s.owner 1 = 1 ∧ s.late 1 = false ∧
+    unrunKids s 0 = 0 ∧ pendForks s 0 = 0 := by
+  decide
+
+/-- Non-vacuity of `reverse_order`: two user hooks registered in the order 0 then 1 on one
+process; after `Exit` has run one hook, it is hook 1 (token 1) that has run, not hook 0. -/
+theorem C04.reverse_order_nonvacuous :
+    let s := run (init 1) [(0, .start .new), (0, .start (.add 0 5)), (0, .start (.add 0 6)),
+      (0, .start (.exit 0 2)), (0, .cont)]
+    s.owner 0 = s.owner 1 ∧ s.late 0 = false ∧ s.late 1 = false ∧ s.nextTok = 2 ∧
+    runCount s 1 = 1 ∧ runCount s 0 = 0 := by
+  decide
+
+/-- **Reverse order, read off the log.** In every reachable state the run log (newest entry
+first) is sorted: of two entries for hooks registered on the same process before its termination,
+the newer entry has the smaller token, i.e. the hook registered EARLIER ran LATER – on whatever
+threads the two hooks ran. -/
+theorem C04.reverse_order_log (nt : Nat) (sched : List (Nat × Action)) :
+    let s := run (init nt) sched
+    s.log.Pairwise (fun newer older =>
+      s.owner newer.tok = s.owner older.tok → s.late newer.tok = false → s.late older.tok = false →
+        newer.tok < older.tok) :=
+  ls_run (good_init nt) (ord_init nt) (ls_init nt) sched
+
+/-- Non-vacuity of `reverse_order_log`: both hooks of the two-hook process have run; the log,
+newest first, lists token 0 (registered first) before token 1. -/
+theorem C04.reverse_order_log_nonvacuous :
+    let s := run (init 1) [(0, .start .new), (0, .start (.add 0 5)), (0, .start (.add 0 6)),
+      (0, .start (.exit 0 2)), (0, .cont), (0, .cont)]
+    s.log.map (·.tok) = [0, 1] ∧ s.log.map (·.kind) = [.user 5, .user 6] ∧ s.owner 0 = s.owner 1 ∧
+    s.late 0 = false ∧ s.late 1 = false := by
+  decide
 
 /-! ## Step granularity tied to the source
 
